@@ -10,6 +10,7 @@ import (
 	"fmt"
 	"io"
 	"math"
+	"reflect"
 
 	"gorgonia.org/tensor"
 )
@@ -210,7 +211,39 @@ func TensorFromProto(tp *TensorProto) (tensor.Tensor, error) {
 		return nil, err
 	}
 
-	return tensor.New(tensor.WithShape(getDims(tp)...), tensor.WithBacking(values)), nil
+	dims := getDims(tp)
+	if err := checkDims(dims, reflect.ValueOf(values).Len()); err != nil {
+		return nil, err
+	}
+
+	return tensor.New(tensor.WithShape(dims...), tensor.WithBacking(values)), nil
+}
+
+// ErrInvalidDims is returned when the dimensions of a tensor are not all positive or
+// do not describe the number of elements the tensor holds.
+var ErrInvalidDims = errors.New("invalid dims")
+
+// checkDims checks that every dimension is at least 1 and that the dimensions together
+// describe exactly nValues elements (a tensor without dimensions is a scalar and holds 1).
+func checkDims(dims []int, nValues int) error {
+	nElements := 1
+
+	for _, dim := range dims {
+		if dim < 1 || dim > nValues {
+			return fmt.Errorf("%w: dimension %d in %v for %d elements", ErrInvalidDims, dim, dims, nValues)
+		}
+
+		nElements *= dim
+		if nElements > nValues {
+			return fmt.Errorf("%w: %v describes more than %d elements", ErrInvalidDims, dims, nValues)
+		}
+	}
+
+	if nElements != nValues {
+		return fmt.Errorf("%w: %v describes %d elements, got %d", ErrInvalidDims, dims, nElements, nValues)
+	}
+
+	return nil
 }
 
 func getFloatData(tp *TensorProto) ([]float32, error) {
